@@ -590,14 +590,16 @@ class PKey:
         cipher = self._CIPHER_TABLE[encryption_type]["cipher"]
         keysize = self._CIPHER_TABLE[encryption_type]["keysize"]
         mode = self._CIPHER_TABLE[encryption_type]["mode"]
-        salt = unhexlify(b(saltstr))
-        key = util.generate_key_bytes(md5, salt, password, keysize)
-        decryptor = Cipher(
-            cipher(key), mode(salt), backend=default_backend()
-        ).decryptor()
-        decrypted_data = decryptor.update(data) + decryptor.finalize()
-        unpadder = padding.PKCS7(cipher.block_size).unpadder()
+        # a damaged salt, IV length or ciphertext length shows up as
+        # ValueError (binascii.Error included) in the steps below
         try:
+            salt = unhexlify(b(saltstr))
+            key = util.generate_key_bytes(md5, salt, password, keysize)
+            decryptor = Cipher(
+                cipher(key), mode(salt), backend=default_backend()
+            ).decryptor()
+            decrypted_data = decryptor.update(data) + decryptor.finalize()
+            unpadder = padding.PKCS7(cipher.block_size).unpadder()
             return unpadder.update(decrypted_data) + unpadder.finalize()
         except ValueError:
             raise SSHException("Bad password or corrupt private key file")
